@@ -2262,6 +2262,9 @@ package sftp
 //@   update after call (FileInfoUidGid).Uid#1: ghost.gU = ret
 //@   update after call (FileInfoUidGid).Gid#1: ghost.gG = ret
 //@   ensures typeis(fi, FileInfoUidGid) ==> st.UID == ghost.gU && st.GID == ghost.gG
+//@   update after call (os.FileInfo).ModTime#1: ghost.gMT = ret
+//@   assert before call (time.Time).Unix#1: arg0 == ghost.gMT
+// (C17: the modification time put on the wire is the FileInfo's, truncated -- not rounded -- to the second)
 
 // ---------------------------------------------------------------------------
 // shutdown of the packet manager (C02: every received request is answered, also when the input ends right behind it)
@@ -2303,6 +2306,7 @@ package sftp
 //@   modifies nothing
 
 //@ ghost var wfail bool
+//@ ghost var gMT time.Time
 //@ ghost var gU uint32
 //@ ghost var gG uint32
 //@ ghost var syncOK bool
